@@ -5,9 +5,10 @@ ID=$1; M=$2; CHECKS=$3
 HERE="$(cd "$(dirname "$0")/.." && pwd)"
 SRC=/tmp/seed-out/$ID/$M
 SCR=/tmp/seedscr-$ID-$M
+PATCH=$SRC/patch.diff; [ -f $SRC/patch.ported.diff ] && PATCH=$SRC/patch.ported.diff
 rm -rf $SCR; rsync -a --exclude target /repo/ $SCR/ || exit 2
 cd $SCR && git checkout -q -- . 2>/dev/null
-if ! git apply --check $SRC/patch.diff 2>/dev/null; then echo "PATCH-DOES-NOT-APPLY to current /repo HEAD"; git apply --3way $SRC/patch.diff 2>&1 | tail -2 || exit 3; else git apply $SRC/patch.diff; fi
+if ! git apply --check $PATCH 2>/dev/null; then echo "PATCH-DOES-NOT-APPLY to current /repo HEAD"; git apply --3way $PATCH 2>&1 | tail -2 || exit 3; else git apply $PATCH; fi
 echo "== diff"; git diff --stat | tail -3
 echo "== suite (with change)"; CARGO_TARGET_DIR=/tmp/seedscr-target timeout 900 cargo test --workspace --no-fail-fast --offline 2>&1 | grep -E "^test result|^error" | awk '/test result/{s+=$4; f+=$6} /^error/{print} END {print "passed", s, "failed", f}'
 cd $HERE
